@@ -53,7 +53,8 @@ Inductive loc :=
 | LFile (i : nat)            (* the writer goroutine of channel i's data file (asyncbufio.Writer.writeLoop): its buffer
                                 and the error state of the underlying file; nobody else may look at it *)
 | LState                     (* AnySource.sourceState, guarded by sourceStateLock *)
-| LMix.                      (* Lancero: the Mix objects (errorScale, last feedback value) of the feedback channels *)
+| LMix.                      (* Lancero: the block assembler's own state: the Mix objects (errorScale, last feedback value), the
+                                external-trigger edge search (externalTriggerLastState), previousLastSampleTime *)
 
 Inductive mid :=
 | MBuf (k : nat)             (* k-th message on buffersChan *)
